@@ -1,7 +1,7 @@
 (* Props/C10.v — C10: Compact and Replace preserve meaning and cost of any
    valid script. *)
 From Similar Require Import Model.Base Model.Utils Model.Myers Model.Hooks Model.Compact Model.Capture
-  Spec.Script Proofs.Replace Proofs.Compact.
+  Spec.Script Proofs.Replace Proofs.Compact Proofs.ReplaceReuse.
 
 (* Compact (the real code, repair = false, and the repaired variant): any
    loosely valid non-empty script stays valid, non-empty, with the same numbers
@@ -84,6 +84,22 @@ Theorem c10_compact_exact_repaired :
     cleanup_diff_ops cmp true ops = Ok ops' -> OpsWalk cmp true oe ne os ns ops'.
 Proof. exact compact_preserves_exact. Qed.
 Print Assumptions c10_compact_exact_repaired.
+
+(* a Replace adapter is as good as new after finish: whatever it was fed (any call list, from any state), a
+   completed finish leaves it in its initial state, so one adapter object can serve any number of diffs; feeding
+   it the same script twice makes the inner hook see the same calls twice *)
+Theorem c10_replace_finish_resets :
+  forall (W : Type) (wd : world W) (dbg : bool) (cs : list call) (s : rstate) (w : W) (s' : rstate) (w' : W),
+    emit_all (replace_world wd dbg) (cs ++ [CFin]) (s, w) = Ok (s', w') -> s' = rstate0.
+Proof. intros W. exact (@replace_world_finish_resets W). Qed.
+Print Assumptions c10_replace_finish_resets.
+
+Theorem c10_replace_twice_same :
+  forall (dbg : bool) (cs out : list call) (s' : rstate),
+    replace_trace dbg (cs ++ [CFin]) rstate0 = (out, Some s') ->
+    replace_trace dbg ((cs ++ [CFin]) ++ (cs ++ [CFin])) rstate0 = (out ++ out, Some rstate0).
+Proof. exact replace_twice_same. Qed.
+Print Assumptions c10_replace_twice_same.
 
 Example c10_instance :
   let old := [1; 2; 1] in let new := [2; 1; 1] in
